@@ -1,4 +1,4 @@
-from . import cycle, sidecar, proxy, store, k8s, discovery, explore, pipeline
+from . import cycle, sidecar, proxy, store, k8s, discovery, explore, pipeline, cfgsync
 CHECKS = {}
 for p in cycle.PROPS:
     CHECKS[p] = cycle.check
@@ -12,3 +12,4 @@ CHECKS['C17'] = discovery.check
 CHECKS['C20'] = explore.check
 CHECKS['C02'] = pipeline.check
 CHECKS['C15'] = pipeline.check
+CHECKS['C16'] = cfgsync.check
